@@ -26,3 +26,5 @@ import Mahotas.Proofs.CScalarTies.Surf
 import Mahotas.Proofs.CScalarTies.Lbp
 import Mahotas.Proofs.CScalarTies.Find2d
 import Mahotas.Proofs.CScalarTies.Find2dAcc
+import Mahotas.Proofs.CScalarTies.Spline
+import Mahotas.Proofs.CScalarTies.CurRank
